@@ -1028,9 +1028,6 @@ Proof.
     rewrite rev_involutive, sapp_nil_r. reflexivity.
 Qed.
 
-<<<<<<< HEAD
-Hypothesis Hlits : lits = (false, false).
-=======
 (* ---- struct literals: fields sorted by definition index, emitted in reverse *)
 Lemma evals_fields_names : forall (ev : expr Q -> res (value Q)) fields fvs,
   evals (fun nf : string * expr Q => bind (ev (snd nf)) (fun v => Ok (fst nf, v))) fields = Ok fvs ->
@@ -1256,7 +1253,6 @@ Proof.
     + intros. simpl. rewrite K. rewrite Ei. simpl. split; reflexivity.
     + intros nk na ip stk s Hm. discriminate.
 Qed.
->>>>>>> vm
 
 Theorem expr_correct : RelW -> forall n, expr_ok n.
 Proof.
